@@ -15,6 +15,7 @@ mod slots;
 mod simnet;
 mod simredis;
 mod rng;
+mod routesim;
 mod sandbox;
 mod shuttle_eng;
 mod views;
@@ -31,6 +32,8 @@ static C03: migsim::MigrationCheck = migsim::MigrationCheck { prop: "C03" };
 static C19: migsim::MigrationCheck = migsim::MigrationCheck { prop: "C19" };
 static C07: controlsim::ControlCheck = controlsim::ControlCheck { prop: "C07" };
 static C13L: controlsim::ControlCheck = controlsim::ControlCheck { prop: "C13" };
+static C02: routesim::RouteCheck = routesim::RouteCheck { prop: "C02" };
+static C14: routesim::RouteCheck = routesim::RouteCheck { prop: "C14" };
 static C11: shuttle_eng::ShuttleCheck = shuttle_eng::ShuttleCheck { prop: "C11" };
 
 static C13E1: broker::BrokerCheck = broker::BrokerCheck { prop: "C13" };
@@ -57,6 +60,8 @@ fn lookup(id: &str) -> Option<&'static dyn Check> {
         "C13" => c13(),
         "C18" => &C18,
         "C11" => &C11,
+        "C02" => &C02,
+        "C14" => &C14,
         "C07" => &C07,
         "C13L" => &C13L,
         "C03" => &C03,
